@@ -307,6 +307,11 @@ class TypedNode(Node):
         else:
             node = factory(kind, child, parent=self, data_id=data_id, node_id=node_id)
 
+        if deep and source_node:
+            # Copy the branch before the new node is linked: the source may
+            # contain the target (i.e. self)
+            node._add_from(source_node)
+
         children = self._children
         if children is None:
             assert before in (None, True, int, False)
@@ -327,9 +332,6 @@ class TypedNode(Node):
             children.insert(idx, node)
         else:
             children.append(node)
-
-        if deep and source_node:
-            node._add_from(source_node)
 
         return node
 
